@@ -8,6 +8,8 @@
 (*           of the text, or per byte when the body is not UTF-8)           *)
 (*   mode, via, ity - type= argument, entry point, Python type of the input *)
 (*   css, js, frag  - the generated blocks for this document's markers      *)
+(*   jsh, cssb      - offsets of lower-case </head> tags inside js and of   *)
+(*                    </body> tags inside css (layer B only)                *)
 (*   res   - "ok" or "exc:<ExceptionClass>"                                 *)
 (*   out, oty - the observed result text and its Python type                *)
 (*   same  - pass-through only: same response object, headers unchanged     *)
@@ -29,8 +31,11 @@ Doc(tr) == [i \in DOMAIN tr.segs |-> [t |-> tr.segs[i].t, v |-> tr.segs[i].v]]
 Text(tr) == [i \in DOMAIN tr.segs |-> tr.segs[i].s]
 EffMode(tr) == IF tr.via = "direct" THEN tr.mode ELSE "document"
 
+Blk(tr) == [css |-> tr.css, js |-> tr.js, frag |-> tr.frag,
+            jsh |-> {tr.jsh[i] : i \in DOMAIN tr.jsh}, cssb |-> {tr.cssb[i] : i \in DOMAIN tr.cssb}]
+
 AdmissibleTexts(tr) ==
-  {Flat(Doc(tr), o, Text(tr), tr.css, tr.js, tr.frag, "") : o \in AdmissibleVia(Doc(tr), tr.via, tr.mode)}
+  {Flat(Doc(tr), o, Text(tr), Blk(tr), "") : o \in AdmissibleVia(Doc(tr), tr.via, tr.mode)}
 
 Failing(tr) ==
   {c \in {"raised", "bytes", "type", "untouched"} :
@@ -48,23 +53,25 @@ Predicted(tr, D) ==
   LET fixes == Devs \ D IN
   IF "nonutf8" \in D /\ tr.ity = "bytes" /\ ~tr.utf8 /\ ImplDecodes(Doc(tr), EffMode(tr), fixes)
   THEN [res |-> "exc:UnicodeDecodeError", out |-> ""]
-  ELSE [res |-> "ok", out |-> ImplOut(Doc(tr), Text(tr), tr.css, tr.js, tr.frag, "", EffMode(tr), fixes)]
+  ELSE [res |-> "ok", out |-> ImplOut(Doc(tr), Text(tr), Blk(tr), "", EffMode(tr), fixes)]
 Explains(tr, D) ==
   /\ Rewrites(tr) /\ Failing(tr) \subseteq {"bytes", "raised"}
   /\ Predicted(tr, D).res = tr.res
   /\ tr.res = "ok" => Predicted(tr, D).out = tr.out
 
-\* candidate explanations, smallest first; the harness turns the names into the finding key
+\* candidate explanations: every non-empty set of deviations; the smallest one wins (ties
+\* broken by a fixed weight).  The harness turns the names into the finding key:
 \*   offset    -> body-end-before-head-end:js-offset-shifted
 \*   multiattr -> placeholder-multi-id-attrs:left-in-place
 \*   nonutf8   -> non-utf8-bytes:unicode-decode-error
-DevSets == << {"offset"}, {"multiattr"}, {"nonutf8"}, {"offset", "multiattr"}, {"multiattr", "nonutf8"},
-              {"offset", "nonutf8"}, {"offset", "multiattr", "nonutf8"} >>
+\*   blocktag  -> end-tag-inside-generated-block:insertion-lands-in-block
+Weight(D) == 100 * Cardinality(D) + (IF "offset" \in D THEN 1 ELSE 0) + (IF "multiattr" \in D THEN 2 ELSE 0)
+               + (IF "nonutf8" \in D THEN 4 ELSE 0) + (IF "blocktag" \in D THEN 8 ELSE 0)
 
 Verdict(tr) ==
   IF Failing(tr) = {} THEN <<"ACCEPT", tr.id>>
-  ELSE LET S == {i \in DOMAIN DevSets : Explains(tr, DevSets[i])} IN
-       IF S # {} THEN <<"DEV", tr.id, DevSets[Min(S)]>>
+  ELSE LET S == {D \in (SUBSET Devs) \ {{}} : Explains(tr, D)} IN
+       IF S # {} THEN <<"DEV", tr.id, CHOOSE D \in S : \A D2 \in S : Weight(D) <= Weight(D2)>>
        ELSE <<"REJECT", tr.id, Failing(tr)>>
 
 TrInit == tid = 1
